@@ -4,6 +4,7 @@ Property theorems only (proofs in `SchedLemmasC02`, on top of the atomic-action 
 -/
 import CylcModel.SchedLemmasC02
 import CylcModel.SchedEnvC02
+import CylcModel.SchedEnvPF
 namespace CylcModel.C02
 open CylcModel.Sched
 
@@ -107,6 +108,61 @@ def retry_bound_full : Prop :=
   ∀ (g : Graph) (ops : List Op), g.wf = true → envOK2 g ops = true →
     ∀ p n, snOf (lastState g (init g) ops) p n ≤ (maxExec g n + 1) * (maxSub g n + 1)
 
+/-! ### the model extended by job-file preparation failures (`SchedPF`) -/
+
+/-- every operation of the extended model — a main loop in which the job-file preparation of some of the instances
+just sent to preparation fails, handled as submit-failed via the preparation path — is a sequence of atomic actions -/
+theorem stepX_refines (g : Graph) (hwf : g.wf = true) (s : State) (hi : RInv g s) (op : OpX) :
+    Steps g Kinds.all (clearOp s) (stepX g s op) :=
+  steps_stepX hwf hi op
+
+/-- **no_double_submit with preparation failures**: in every run of the extended model the submit numbers of the
+submission attempts (launches and failed preparations) of one instance, in order, are exactly 1, 2, …, k -/
+theorem no_double_submit_pf (g : Graph) (hwf : g.wf = true) (ops : List OpX) (p : Int) (n : String) :
+    snsOf ((runX g ops).flatMap (·.launched)) p n = List.range' 1 (snOf (lastStateX g (init g) ops) p n) :=
+  submit_numbers_consecutiveX hwf ops p n
+
+theorem retry_counters_bounded_pf (g : Graph) (hwf : g.wf = true) (ops : List OpX) :
+    ∀ s ∈ runX g ops, ∀ x ∈ s.pool, x.execTry ≤ maxExec g x.name ∧ x.subTry ≤ maxSub g x.name :=
+  tries_runX hwf ops
+
+theorem lastStateX_mem_traceX (g : Graph) : ∀ (ops : List OpX) (s : State), lastStateX g s ops ∈ traceX g s ops := by
+  intro ops; induction ops with
+  | nil => intro s; simp [lastStateX, traceX]
+  | cons op ops ih =>
+    intro s
+    have : lastStateX g s (op :: ops) = lastStateX g (stepX g s op) ops := rfl
+    rw [this]
+    simp only [traceX, List.mem_cons]
+    exact Or.inr (ih _)
+
+/-- **retry_bound with preparation failures**: for a graph without suicide triggers and a run of the extended model
+that respects the environment assumption (`envOK2X`), an instance has at most `(N+1)*(M+1)` submission attempts
+(launches plus failed job-file preparations) in the whole run: a preparation failure consumes a submission retry
+like any other submission failure and does not lead to a re-submission by itself. -/
+theorem retry_bound_pf (g : Graph) (hwf : g.wf = true) (hns : g.noSui = true) (ops : List OpX)
+    (henv : envOK2X g ops = true) (p : Int) (n : String) :
+    (snsOf ((runX g ops).flatMap (·.launched)) p n).length ≤ (maxExec g n + 1) * (maxSub g n + 1) := by
+  rw [no_double_submit_pf g hwf ops p n, List.length_range']
+  have hmem : lastStateX g (init g) ops ∈ runX g ops := lastStateX_mem_traceX g ops _
+  have h := (env_runX hwf hns ops henv _ hmem).2
+  unfold snOf
+  cases hg : (lastStateX g (init g) ops).get? p n with
+  | some x =>
+    have hx := get?_some_spec hg
+    have := (h.pool x hx.1).bound
+    rw [hx.2.2] at this
+    exact this
+  | none =>
+    simp only
+    cases hl : lastHist (lastStateX g (init g) ops) n p with
+    | none => exact Nat.zero_le _
+    | some hh =>
+      have hm := lastHist_mem hl
+      have := (h.hist hh hm.1).2
+      rw [hm.2.2] at this
+      exact this
+
 /-! ### the retry automaton of one proxy -/
 
 /-- abstract state of one proxy between spawn and removal: execution / submission try numbers, the number of
@@ -202,6 +258,24 @@ example : exGraph.wf = true ∧
 
 -- the hypotheses of `retry_bound` hold for the example (bound (1+1)*(0+1) = 2, reached)
 example : exGraph.noSui = true ∧ envOK2 exGraph exOps = true := by decide
+
+/-- one task with one submission retry -/
+def exGraph2 : Graph :=
+  { icp := 1, fcp := 1, start := 1, runahead := 1, seqs := [[1]], stopPoint := some 1,
+    tasks := [
+      { name := "a",
+        insts := [(1, { pre := [], sui := [], children := [], nextParentless := none })],
+        firstParentless := some 1, completion := CE.var "succeeded", outputs := stdOuts, subRetries := 1 }] }
+
+-- the extended model: the job-file preparation of the first submission fails with a submission retry remaining:
+-- back to waiting, attempt no. 1 consumed and not launched; the next main loops wake the retry and launch no. 2
+example : exGraph2.noSui = true ∧
+    envOK2X exGraph2 [.loopPF [(1, "a")], .base .loop, .base .loop] = true ∧
+    ((runX exGraph2 [.loopPF [(1, "a")], .base .loop, .base .loop]).map fun s =>
+      (s.launched, s.pool.map fun x => (x.status, x.submitNum, x.subTry))) =
+    [([], [(.waiting, 0, 0)]), ([(1, "a", 1)], [(.waiting, 1, 1)]), ([(1, "a", 2)], [(.preparing, 2, 1)]),
+     ([], [(.preparing, 2, 1)])] := by
+  decide
 
 -- the automaton: N = 1, M = 0: launch, started, exec retry, launch reaches 2 = (1+1)*(0+1) launches
 example : RReach 1 0 ⟨1, 0, 2, 1⟩ :=
